@@ -18,7 +18,7 @@ RE = 6378.1363
 START = datetime(2021, 3, 30, 12, 0, 0)
 
 
-def kepler_state(a, e, i, O, w, nu):
+def kepler_state(a, e, i, O, w, nu, MU=MU):
     p = a * (1 - e * e)
     r = p / (1 + e * math.cos(nu))
     cO, sO, ci, si, cw, sw = math.cos(O), math.sin(O), math.cos(i), math.sin(i), math.cos(w), math.sin(w)
@@ -48,7 +48,9 @@ def cases(run: Run):
         elif kind == "long":
             tf = rng.uniform(0.55, 0.98)
         out.append({"op": "arc", "a": a, "e": e, "i": rng.choice([0.0, 0.4, 1.1, math.pi / 2, 2.4, rng.uniform(0, math.pi)]), "O": rng.uniform(0, 2 * math.pi),
-                    "w": rng.uniform(0, 2 * math.pi), "nu": nu1, "tf": tf, "kind": kind})
+                    "w": rng.uniform(0, 2 * math.pi), "nu": nu1, "tf": tf, "kind": kind,
+                    # the solvers take the gravitational parameter of the central body: Earth mostly, now and then the Moon, Mars, Venus, Uranus
+                    "mu": MU if rng.random() < 0.8 else rng.choice([4902.800066, 42828.375214, 324858.592, 5793939.0])})
     for _ in range(run.n(60, 600)):
         out.append({"op": "obs", "lat": math.degrees(math.asin(rng.uniform(-0.99, 0.99))), "lon": rng.uniform(-180, 180), "alt": rng.choice([0.0, 0.3, 2.0]),
                     "az": rng.uniform(0, 360), "el": rng.choice([1.0, 10.0, 45.0, 80.0, 89.0, rng.uniform(1, 89)]), "rho": rng.choice([300.0, 1500.0, 8000.0, 36000.0, 60000.0]),
@@ -57,7 +59,9 @@ def cases(run: Run):
         a = rng.choice([7178.0, 8000.0, 26560.0, 42164.0, rng.uniform(6900, 43000)])
         out.append({"op": "iod", "a": a, "e": rng.choice([0.0, 0.0005, 0.002, 0.005]), "i": rng.choice([0.05, 0.96, 1.72, 2.6, rng.uniform(0.05, 3.0)]), "O": rng.uniform(0, 2 * math.pi),
                     "w": rng.uniform(0, 2 * math.pi), "nu": rng.uniform(0, 2 * math.pi), "gap": rng.choice([0.03, 0.1, 0.17, 0.19, 0.25, 0.3, 0.34, 0.37, 0.39, rng.uniform(0.02, 0.395)]),
-                    "solver": rng.choice(["universal", "universal", "battin"]), "extra_prev": rng.randint(0, 2)})
+                    "solver": rng.choice(["universal", "universal", "battin"]), "extra_prev": rng.randint(0, 2),
+                    # the configured minimum spacing between observations, and now and then a pair closer than that with older observations stored
+                    "spacing": rng.choice([60, 60, 120, 300, 10]), "gap_s": rng.choice([None, None, None, 60, 30, 90, 120])})
     return out
 
 
@@ -72,10 +76,11 @@ def impl_arc(c):
     from resonaate.physics.orbit_determination.lambert import lambertBattin, lambertUniversal
     from resonaate.physics.orbits.kepler import solveKeplerProblemUniversal
 
-    x1 = kepler_state(c["a"], c["e"], c["i"], c["O"], c["w"], c["nu"])
-    period = 2 * math.pi * math.sqrt(c["a"] ** 3 / MU)
+    mu = float(c.get("mu", MU))
+    x1 = kepler_state(c["a"], c["e"], c["i"], c["O"], c["w"], c["nu"], MU=mu)
+    period = 2 * math.pi * math.sqrt(c["a"] ** 3 / mu)
     tof = c["tf"] * period
-    x2 = np.asarray(solveKeplerProblemUniversal(x1, tof))
+    x2 = np.asarray(solveKeplerProblemUniversal(x1, tof, mu=mu))
     h = np.cross(x1[:3], x1[3:])
     # transfer angle measured along the motion
     dnu = math.atan2(float(np.cross(x1[:3], x2[:3]) @ h) / float(np.linalg.norm(h)), float(x1[:3] @ x2[:3])) % (2 * math.pi)
@@ -84,9 +89,9 @@ def impl_arc(c):
     out["tm"] = tm
     for name, fn in (("universal", lambertUniversal), ("battin", lambertBattin)):
         try:
-            v1, v2 = fn(x1[:3], x2[:3], tof, tm)
+            v1, v2 = fn(x1[:3], x2[:3], tof, tm, mu=mu) if mu != MU else fn(x1[:3], x2[:3], tof, tm)
             v1, v2 = np.asarray(v1, float), np.asarray(v2, float)
-            arr = np.asarray(solveKeplerProblemUniversal(np.concatenate([x1[:3], v1]), tof))
+            arr = np.asarray(solveKeplerProblemUniversal(np.concatenate([x1[:3], v1]), tof, mu=mu))
             out[name] = {"v1": [float(v) for v in v1], "v2": [float(v) for v in v2], "arrive": [float(v) for v in arr]}
         except Exception as ex:  # noqa: BLE001
             out[name] = {"error": f"{type(ex).__name__}: {ex}"}
@@ -140,6 +145,8 @@ def impl_iod(c):
     period = 2 * math.pi * math.sqrt(c["a"] ** 3 / MU)
     t1 = 600
     gap = max(60, int(round(c["gap"] * period / 60.0)) * 60)
+    if c.get("gap_s"):
+        gap = int(c["gap_s"])
     t2 = t1 + gap
     x0 = kepler_state(c["a"], c["e"], c["i"], c["O"], c["w"], c["nu"])
     xs = {t: np.asarray(solveKeplerProblemUniversal(x0, float(t))) for t in (t1, t2)}
@@ -163,7 +170,7 @@ def impl_iod(c):
         db.insertData(ob)
     second, _ = observe(t2)
     solver = lambertUniversal if c["solver"] == "universal" else lambertBattin
-    iod = iod_module.LambertIOD(60, solver, 10001, datetimeToJulianDate(START))
+    iod = iod_module.LambertIOD(c.get("spacing", 60), solver, 10001, datetimeToJulianDate(START))
     with mock.patch.object(iod_module, "getDBConnection", lambda: db):
         sol = iod.determineNewEstimateState([second], ScenarioTime(0.0), ScenarioTime(float(t2)))
     return {"converged": bool(sol.convergence), "message": str(sol.message), "state": [float(v) for v in sol.state_vector] if sol.state_vector is not None else None,
@@ -187,7 +194,7 @@ def oracle(run: Run, c, impl):
             return fails
         run.count("sense:" + ("short" if o["tm"] == 1 else "long"))
         x2 = np.array(o["x2"])
-        desc = f"a={c['a']:.0f} e={c['e']:.3f} i={c['i']:.2f} nu1={math.degrees(c['nu']):.1f} deg, transfer {dnu_deg:.1f} deg ({'short' if o['tm'] == 1 else 'long'} way), tof {c['tf']:.3f} of the period"
+        desc = f"mu={c.get('mu', MU)} a={c['a']:.0f} e={c['e']:.3f} i={c['i']:.2f} nu1={math.degrees(c['nu']):.1f} deg, transfer {dnu_deg:.1f} deg ({'short' if o['tm'] == 1 else 'long'} way), tof {c['tf']:.3f} of the period"
         for name in ("universal", "battin"):
             r = o[name]
             if "error" in r:
@@ -200,7 +207,10 @@ def oracle(run: Run, c, impl):
             run.worse(f"{name}:arrival-km", dp)
             run.worse(f"{name}:final-velocity", dv)
             # the iterations stop at a tolerance of 1.5e-8 in their own variable; over the time of flight that is up to a few 1e-6 km per second of flight (Battin, e = 0.7, long way: 4.4e-2 km after 40 700 s)
-            if not (dp <= 1e-3 + 5e-6 * o["tof"] and dv <= 5e-5 and dtrue <= 5e-5):
+            vs = max(1.0, math.sqrt(float(c.get("mu", MU)) / MU))  # velocities scale with the square root of the gravitational parameter
+            if c.get("mu", MU) != MU:
+                run.count("arc:other-central-body")
+            if not (dp <= 1e-3 + 5e-6 * o["tof"] * vs and dv <= 5e-5 * vs and dtrue <= 5e-5 * vs):
                 fails.append((f"{name}:arc", f"{name}: propagating r1 with the returned v1 for the time of flight misses r2 by {dp:.6g} km and the returned v2 by {dv:.3g} km/s "
                                              f"(returned v1 differs from the arc's by {dtrue:.3g} km/s) ({desc})"))
     elif c["op"] == "obs":
@@ -221,7 +231,10 @@ def oracle(run: Run, c, impl):
             dv = float(np.linalg.norm(np.array(o["state"][3:]) - np.array(o["truth"][3:])))
             run.worse("iod:position-km", dp)
             run.worse("iod:velocity", dv)
-            if not (dp <= 1e-5 and dv <= 1e-6):
+            # the time of flight is a difference of two Julian dates (resolution 4.7e-5 s each): over a short arc that is a relative error of up to
+            # 2e-4 s / gap in the time of flight, hence in the velocity
+            speed = float(np.linalg.norm(np.array(o["truth"][3:])))
+            if not (dp <= 1e-5 and dv <= 1e-6 + speed * 2e-4 / o["gap"]):
                 fails.append(("iod:state", f"the determined state is {dp:.6g} km and {dv:.6g} km/s from the orbit's state at the second observation ({desc})"))
     return fails
 
